@@ -855,15 +855,9 @@ func (p *InlineParser) parseEndBracket(state *inlineState, start int) (end int) 
 		// Full reference link.
 		label := parseLinkLabel(newInlineByteReader(state.source, state.unparsed[state.unparsedPos:], start+1))
 		if !label.span.IsValid() {
-			state.addToRoot(&Inline{
-				kind: TextKind,
-				span: Span{
-					Start: start,
-					End:   start + 1,
-				},
-			})
-			state.stack = deleteDelimiterStack(state.stack, openDelimIndex, openDelimIndex+1)
-			return start + 1
+			// The bracket does not begin a link label,
+			// so what precedes it can still be a shortcut reference link.
+			return p.parseShortcutReference(state, kind, openDelimIndex, start)
 		}
 		inlineLabel := &Inline{
 			kind: LinkLabelKind,
@@ -902,34 +896,39 @@ func (p *InlineParser) parseEndBracket(state *inlineState, start int) (end int) 
 		p.finishLink(state, kind, openDelimIndex)
 		return linkNode.span.End
 	default:
-		// Shortcut reference link.
-
-		// Since we're backtracking, we use the full state.unparsed rather than a slice.
-		normalizedLabel := transformLinkReferenceSpan(state.source, state.unparsed, Span{
-			Start: state.stack[openDelimIndex].node.Span().End,
-			End:   start,
-		})
-		if p.ReferenceMatcher == nil || !p.ReferenceMatcher.MatchReference(normalizedLabel) {
-			state.addToRoot(&Inline{
-				kind: TextKind,
-				span: Span{
-					Start: start,
-					End:   start + 1,
-				},
-			})
-			state.stack = deleteDelimiterStack(state.stack, openDelimIndex, openDelimIndex+1)
-			return start + 1
-		}
-
-		linkNode := state.wrap(kind, state.stack[openDelimIndex].node, nil)
-		linkNode.ref = normalizedLabel
-		linkNode.span = Span{
-			Start: state.stack[openDelimIndex].node.span.Start,
-			End:   start + 1,
-		}
-		p.finishLink(state, kind, openDelimIndex)
-		return linkNode.span.End
+		return p.parseShortcutReference(state, kind, openDelimIndex, start)
 	}
+}
+
+// parseShortcutReference handles a closing bracket at start
+// that is not followed by an inline link, "[]" or a link label:
+// the bracketed text is a shortcut reference link if it matches a definition.
+func (p *InlineParser) parseShortcutReference(state *inlineState, kind InlineKind, openDelimIndex int, start int) (end int) {
+	// Since we're backtracking, we use the full state.unparsed rather than a slice.
+	normalizedLabel := transformLinkReferenceSpan(state.source, state.unparsed, Span{
+		Start: state.stack[openDelimIndex].node.Span().End,
+		End:   start,
+	})
+	if p.ReferenceMatcher == nil || !p.ReferenceMatcher.MatchReference(normalizedLabel) {
+		state.addToRoot(&Inline{
+			kind: TextKind,
+			span: Span{
+				Start: start,
+				End:   start + 1,
+			},
+		})
+		state.stack = deleteDelimiterStack(state.stack, openDelimIndex, openDelimIndex+1)
+		return start + 1
+	}
+
+	linkNode := state.wrap(kind, state.stack[openDelimIndex].node, nil)
+	linkNode.ref = normalizedLabel
+	linkNode.span = Span{
+		Start: state.stack[openDelimIndex].node.span.Start,
+		End:   start + 1,
+	}
+	p.finishLink(state, kind, openDelimIndex)
+	return linkNode.span.End
 }
 
 func (p *InlineParser) finishLink(state *inlineState, kind InlineKind, openDelimIndex int) {
